@@ -13,7 +13,8 @@ EXPLANATION = (
     'class contributions for the queried colour and exact pawn attacks (= C01.R5, C01.R4). (R7) the list whose emptiness decides mate '
     'and stalemate is the pseudo-legal list minus exactly the moves whose simulation leaves the king attacked (imports C01.R1/R2: every'
     ' candidate is simulated, none is dropped or kept on a shortcut). Slider / leaper geometry is NOT decided here (C11). R7 imports '
-    'all clauses of C01 (the list whose emptiness decides mate / stalemate is the legal move list).'
+    'all clauses of C01 (the list whose emptiness decides mate / stalemate is the legal move list). R3 rows may be refined into several'
+    ' variants; rows must stay disjoint and contain their standard variant.'
 )
 ASSUMPTIONS = [
     "rustc MIR construction and the chessfacts extractor are faithful",
@@ -215,6 +216,29 @@ def apply_undo_bracket(o, ap, un, atoms):
     return all(isinstance(a[3], tuple) and lo_ <= a[3][1] < hi_ for a, v in atoms)
 
 
+def effect_rows(facts):
+    """{(mate, check): {effect variants stored on the iteration paths of the classification routine where the in-mate / in-check atoms have
+    these values}}.  The standard tree gives (1,None)->Checkmate, (0,1)->Check, (0,0)->None; a refinement of one row into several variants
+    (say a separate variant for a double check) shows up as a row with several variants."""
+    n2 = MG + '::lazily_update_chess_move_effect_for_checks_and_checkmates'
+    ap, un, se = CHESSMOVE + '::apply', CHESSMOVE + '::undo', CHESSMOVE + '::set_effect'
+    outs = Engine(facts, opaque={ap, un, se, GEN}, readonly={IN_CHECK, IN_MATE, EVAL + 'game_ending', EVAL + 'player_is_in_stalemate'}, max_paths=20000).run(n2)
+    rows = {}
+    for o in outs:
+        if o.kind != 'backedge':
+            continue
+        heads = [i_ for i_, e in enumerate(o.events) if e[0] == 'loop_head']
+        body = o.events[heads[-1]:] if heads else o.events
+        sets = [e for e in body if e[0] == 'call' and e[1] == se]
+        if len(sets) != 1:
+            continue
+        atoms = [(a, v) for a, v in o.conds if a[0] == 'call' and a[1] in (IN_CHECK, IN_MATE)]
+        mate = dict((a[1], 1 if is_true(v) else 0) for a, v in atoms)
+        eff = sets[0][2][1]
+        rows.setdefault((mate.get(IN_MATE), mate.get(IN_CHECK)), set()).add(eff[3] if eff and eff[0] == 'agg' else show(eff))
+    return rows
+
+
 def r3_annotation(ctx):
     rule = 'C06.R3-effect-annotation'
     facts = ctx.facts
@@ -269,7 +293,7 @@ def r3_annotation(ctx):
         eff = [e for e in ev if e[1] == se][0][2][1] if names.count(se) == 1 else None
         mate = dict((a[1], 1 if is_true(v) else 0) for a, v in atoms)
         key = (mate.get(IN_MATE), mate.get(IN_CHECK))
-        table[key] = eff[3] if eff and eff[0] == 'agg' else show(eff)
+        table.setdefault(key, set()).add(eff[3] if eff and eff[0] == 'agg' else show(eff))
         ctx.ob(rule, name, 'path(mate=%s,check=%s): apply < classify < undo < set_effect' % key, order_ok and ep_ok and same_move and apply_undo_bracket(o, ap, un, atoms),
                found={'calls': [x.rsplit('::', 1)[-1] for x in names], 'classified in epoch': [a[3] for a, v in atoms]},
                expected='classification between apply and undo of the same move',
@@ -279,8 +303,11 @@ def r3_annotation(ctx):
                found={'classified': [show(p_) for p_ in players], 'entry passes': [show(p_) for p_ in passed]}, expected='opposite(mover)',
                why='the side that may be in check after a move is the opponent of the mover')
     oracle = {(1, None): 'Checkmate', (0, 1): 'Check', (0, 0): 'None'}
+    # a row may be refined into several variants (Check / DoubleCheck); the rows must stay disjoint and each must contain its standard variant
     for k, want in oracle.items():
-        ctx.ob(rule, name, 'row(mate=%s,check=%s) -> %s' % (k[0], k[1], table.get(k)), table.get(k) == want, found=table.get(k), expected=want,
+        got = sorted(table.get(k, ()))
+        elsewhere = {v for k2, vs in table.items() if k2 != k for v in vs}
+        ctx.ob(rule, name, 'row(mate=%s,check=%s) -> %s' % (k[0], k[1], want), want in got and not (set(got) & elsewhere), found=got, expected=want,
                why='annotation: checkmate, else check, else neither')
     ctx.floor(rule, 'return paths', n, 3)
     # every listed move goes through the classification; the walk over the list ends only when it is exhausted
